@@ -26,6 +26,9 @@ def gen_points(rng, n, style, scale=1.0, shift=0.0):
         elif style == "ilattice":       # integral -> also representable as int arrays
             b = float(rng.randint(0, 5))
             d = b + float(rng.randint(0, 5))
+        elif style == "decimal":        # decimal grid: ties that are broken only by inexact binary arithmetic
+            b = rng.randint(0, 30) * 0.1
+            d = b + rng.randint(0, 60) * 0.1
         elif style == "float":
             b = rng.random()
             d = b + rng.random() * rng.choice((0.01, 0.3, 1.0))
@@ -42,7 +45,7 @@ def gen_points(rng, n, style, scale=1.0, shift=0.0):
 
 
 def gen_diagram(rng, max_n, style=None, allow_inf=True, allow_diag=True, scale=None, shift=None):
-    style = style or rng.choice(("lattice", "lattice", "ilattice", "float", "narrow", "late-short"))
+    style = style or rng.choice(("lattice", "lattice", "ilattice", "float", "narrow", "late-short", "decimal", "decimal"))
     if scale is None:
         scale = rng.choice((1.0, 1.0, 1.0, 1e-6, 1e-3, 7.0, 1e3, 1e6))
     if shift is None:
@@ -92,7 +95,13 @@ def perturbed_copy(rng, A, scale, max_n, style):
         r = rng.random()
         if r < 0.12:
             continue
-        if lattice:
+        if style == "decimal":
+            x = rng.choice((0.1, 0.1, 0.2, 0.3, 0.0)) * scale
+            if rng.random() < 0.6:          # nested interval (b+x, d-x)
+                q = [p[0] + x, p[1] - x]
+            else:
+                q = [p[0] + x * rng.choice((-1, 0, 1)), p[1] + x * rng.choice((-1, 0, 1))]
+        elif lattice:
             step = (0.5 if style == "lattice" else 1.0) * scale
             q = [p[0] + step * rng.choice((-1, 0, 0, 1)), p[1] + step * rng.choice((-1, 0, 0, 1))]
         else:
